@@ -193,21 +193,28 @@ structure Loopback where
 
 def Loopback.fresh : Loopback := { contents := [], payload := [], family := 0 }
 
-/-- loopback.go:29-51 `(*Loopback).DecodeFromBytes`.  The `&&` is short-circuit: `data[1]` is read
-    only when `data[0] == 0`.  Neither error path calls `df.SetTruncated()`; the second one
-    evaluates `data[:4]` for the error text. -/
+/-- loopback.go:37-42: `if data[0] == 0 && data[1] == 0 { prot = BigEndian.Uint32(data[:4]) } else
+    { prot = LittleEndian.Uint32(data[:4]) }`.  The `&&` is short-circuit: `data[1]` is read only
+    when `data[0] == 0`. -/
+def loBigEndian (data : GSlice) : Res Bool := do
+  let b0 ← data.index 0
+  if b0 = 0 then do
+    let b1 ← data.index 1
+    pure (decide (b1 = 0))
+  else pure false
+
+def loReadProt (data : GSlice) : Res Nat := do
+  let bigEndian ← loBigEndian data
+  let s ← data.slice 0 4
+  if bigEndian then uint32be s else uint32le s
+
+/-- loopback.go:29-51 `(*Loopback).DecodeFromBytes`.  Neither error path calls
+    `df.SetTruncated()`; the second one evaluates `data[:4]` for the error text. -/
 def Loopback.decodeFromBytes (old : Loopback) (data : GSlice) : Res (DecOut Loopback) :=
   if data.len < 4 then
     .ok { layer := old, trunc := false, err := true }           -- "Loopback packet too small"
   else do
-    let b0 ← data.index 0
-    let bigEndian ←
-      if b0 = 0 then do
-        let b1 ← data.index 1
-        pure (decide (b1 = 0))
-      else pure false
-    let s ← data.slice 0 4
-    let prot ← if bigEndian then uint32be s else uint32le s     -- prot = Big/LittleEndian.Uint32(data[:4])
+    let prot ← loReadProt data                                   -- prot = Big/LittleEndian.Uint32(data[:4])
     if prot > 0xFF then do
       let _ ← data.slice 0 4                                     -- fmt.Errorf("Invalid loopback protocol %q", data[:4])
       pure { layer := old, trunc := false, err := true }
